@@ -202,6 +202,28 @@ fn matches_known(v: &Violation, prop: &str, known: &[KnownFinding]) -> Option<us
 
 // ----------------------------------------------------------- running one run
 
+/// Panics raised anywhere in the process while a run executes: a panic inside
+/// a spawned tokio task is swallowed by the runtime, but it still is a panic
+/// of the code under test.
+pub static PANICS: std::sync::atomic::AtomicU64 = std::sync::atomic::AtomicU64::new(0);
+pub static LAST_PANIC: std::sync::Mutex<String> = std::sync::Mutex::new(String::new());
+
+pub fn install_panic_hook() {
+    std::panic::set_hook(Box::new(|info| {
+        PANICS.fetch_add(1, std::sync::atomic::Ordering::SeqCst);
+        let msg = info
+            .payload()
+            .downcast_ref::<String>()
+            .cloned()
+            .or_else(|| info.payload().downcast_ref::<&str>().map(|s| (*s).to_string()))
+            .unwrap_or_default();
+        let at = info.location().map_or_else(String::new, |l| format!("{}:{}", l.file(), l.line()));
+        if let Ok(mut g) = LAST_PANIC.lock() {
+            *g = format!("{msg} at {at}");
+        }
+    }));
+}
+
 type RunReply = Result<RunResult, (Box<dyn std::any::Any + Send>, Option<(u64, u64)>)>;
 
 struct Job {
@@ -259,8 +281,23 @@ pub fn run_isolated(prop: &'static dyn Property, plan: &Value, exec: &Exec, want
         };
         slot.as_ref().unwrap().send(job).expect("run thread gone");
     }
+    let panics_before = PANICS.load(std::sync::atomic::Ordering::SeqCst);
     match rx.recv_timeout(Duration::from_secs(prop.watchdog_s())) {
-        Ok(Ok(r)) => r,
+        Ok(Ok(mut r)) => {
+            if PANICS.load(std::sync::atomic::Ordering::SeqCst) > panics_before {
+                let msg = LAST_PANIC.lock().map(|g| g.clone()).unwrap_or_default();
+                if msg.starts_with("HARNESS:") {
+                    r.violations.push(Violation::new("harness_error").detail(json!({ "message": msg })));
+                } else {
+                    r.violations.push(
+                        Violation::new("panic")
+                            .fact("inside_spawned_task", true)
+                            .detail(json!({ "message": msg })),
+                    );
+                }
+            }
+            r
+        }
         Ok(Err((panic, left))) => {
             let msg = if let Some(s) = panic.downcast_ref::<String>() {
                 s.clone()
@@ -358,8 +395,8 @@ pub fn worker_main(
     let mut shapes: BTreeSet<u64> = BTreeSet::new();
     let mut states: BTreeSet<u64> = BTreeSet::new();
     let mut index = w;
-    // silence panic messages of runs (they are reported as violations)
-    std::panic::set_hook(Box::new(|_| {}));
+    // panics of runs are counted and reported as violations, not printed
+    install_panic_hook();
     while index < total {
         if start.elapsed().as_secs() >= deadline_s {
             out.stopped_early = true;
@@ -455,7 +492,7 @@ pub fn run_batch(prop: &'static dyn Property, cfg: &BatchConfig) -> i32 {
     );
     std::fs::create_dir_all(&cfg.scratch).expect("scratch dir");
     // panics of runs (in the minimiser) are reported as violations, not printed
-    std::panic::set_hook(Box::new(|_| {}));
+    install_panic_hook();
     let exe = std::env::current_exe().expect("current exe");
     let mut children = Vec::new();
     for w in 0..cfg.jobs {
@@ -544,6 +581,12 @@ pub fn run_batch(prop: &'static dyn Property, cfg: &BatchConfig) -> i32 {
         for v in &f.violations {
             if v.kind == "harness_error" {
                 harness_errors.push(format!("seed {}: {}", f.seed, v.detail));
+                let dir = cfg.verif_dir.join("replay");
+                let _ = std::fs::create_dir_all(&dir);
+                let rf = json!({"format": 1, "property": id, "engine": prop.engine(), "engine_rev": "", "repo_rev": "",
+                    "seed": f.seed, "mode": "seeded", "plan": f.plan, "decisions": [], "violation": v,
+                    "event_log_hash": "", "minimised": false, "original": {}});
+                let _ = std::fs::write(dir.join(format!("HARNESS-{id}-{:016x}.json", f.seed)), serde_json::to_string_pretty(&rf).unwrap());
             } else if let Some(k) = matches_known(v, id, &known) {
                 *known_hit.entry(k).or_insert(0) += 1;
             } else {
